@@ -410,3 +410,112 @@ func uniqStrings(xs []string) []string {
 	}
 	return out
 }
+
+// R-SELF-TOLERANT-CONSUME (C01, C07): only one name of a form can stand for the provider.
+func init() {
+	register(&Rule{Name: "R-SELF-TOLERANT-CONSUME", Min: 2,
+		Doc: "in the typing rules, the self-tolerant consume function (the one that answers with the provider's type when handed `self` or the shadow name) is never applied to a name on a path on which another name of the same form has already been established to be the provider: in that arm the name is something the process hands over, and handing over its own providing channel (`self.next<self>`) would leave the receiver holding a reference to `self`, which the interpreter cannot use",
+		Run: runSelfTolerantConsume})
+	register(&Rule{Name: "R-POLARITY-SOURCE", Min: 2,
+		Doc: "the interpreter's polarity query on a name (a method with a flag saying whether the program was typechecked) answers, on every path on which the flag is true, with Polarity() of the name's own type, and no return is reached before the flag has been looked at: the user's optional annotation – which the copy of a form turns into a non-nil pointer to the zero value when it was absent – may only decide in untyped runs",
+		Run: runPolaritySource})
+}
+
+func runSelfTolerantConsume(p *Program, r *RuleResult) {
+	// the self-tolerant consume: a consume function with a *Name (shadow) parameter
+	n := 0
+	for _, m := range p.typecheckMethods() {
+		view := p.View(m.Fn)
+		recv := m.Recv.Name()
+		ord := 0
+		for _, c := range p.callsIn(m.Fn) {
+			call, ok := c.(*ssa.Call)
+			if !ok {
+				continue
+			}
+			sc := call.Common().StaticCallee()
+			if sc == nil || !(p.isConsumeFunc(sc) || looksLikeConsume(sc)) {
+				continue
+			}
+			tolerant := false
+			for _, prm := range sc.Params {
+				if isNameType(prm.Type()) && isPtr(prm.Type()) {
+					tolerant = true
+				}
+			}
+			if !tolerant {
+				continue
+			}
+			n++
+			ord++
+			subject := strings.TrimPrefix(accessPath(call.Common().Args[0]), recv+".")
+			construct := fmt.Sprintf("self-tolerant-consume#%d:%s", ord, subject)
+			bad := ""
+			for f := range view.FactsAt(call.Block()) {
+				pc, ok := f.v.(*ssa.Call)
+				if !ok || f.k != factTrue || !p.isProviderFunc(pc.Common().StaticCallee()) {
+					continue
+				}
+				other := strings.TrimPrefix(accessPath(pc.Common().Args[0]), recv+".")
+				if other != "" && other != subject {
+					bad = fmt.Sprintf("%s is consumed with the self-tolerant function although %s is the provider on this path: `self` would be accepted as the channel that is handed over", subject, other)
+				}
+			}
+			if bad != "" {
+				r.add(fnName(m.Fn), construct, Violated, p.instrPos(call), bad)
+			} else {
+				r.add(fnName(m.Fn), construct, Holds, p.instrPos(call), "no other name of the form is the provider here")
+			}
+		}
+	}
+	r.count("self-tolerant consumes in typing rules", n)
+}
+
+func runPolaritySource(p *Program, r *RuleResult) {
+	nameT := p.Named(processPkg, "Name")
+	n := 0
+	ms := types.NewMethodSet(types.NewPointer(nameT))
+	for i := 0; i < ms.Len(); i++ {
+		fn := p.MethodOpt(nameT, ms.At(i).Obj().Name())
+		if fn == nil || fn.Blocks == nil || fn.Signature.Results().Len() != 1 || !isNamed(fn.Signature.Results().At(0).Type(), typesPkg, "Polarity") {
+			continue
+		}
+		var flag *ssa.Parameter
+		for _, prm := range fn.Params[1:] {
+			if b, ok := prm.Type().Underlying().(*types.Basic); ok && b.Kind() == types.Bool {
+				flag = prm
+			}
+		}
+		if flag == nil {
+			continue
+		}
+		view := p.View(fn)
+		recv := fn.Params[0].Name()
+		ord := 0
+		for _, b := range view.Blocks() {
+			ins := view.Instrs(b)
+			ret, ok := ins[len(ins)-1].(*ssa.Return)
+			if !ok || len(ret.Results) != 1 {
+				continue
+			}
+			n++
+			ord++
+			construct := fmt.Sprintf("return#%d", ord)
+			switch {
+			case view.holdsAt(b, flag, factTrue):
+				c, isCall := ret.Results[0].(*ssa.Call)
+				if isCall && c.Common().IsInvoke() && c.Common().Method.Name() == "Polarity" && strings.HasPrefix(accessPath(c.Common().Value), recv+".Type") {
+					r.add(fnName(fn), construct, Holds, p.instrPos(ret), "typed run: the polarity of the name's own type")
+				} else {
+					r.add(fnName(fn), construct, Violated, p.instrPos(ret), "in a typechecked run this return does not answer with Polarity() of the name's type")
+				}
+			case view.holdsAt(b, flag, factFalse):
+				r.add(fnName(fn), construct, Holds, p.instrPos(ret), "untyped run")
+			default:
+				r.add(fnName(fn), construct, Violated, p.instrPos(ret),
+					"this return is reached without looking at whether the program was typechecked: in a typed run something other than the name's type (an annotation, or the zero value a form copy leaves in its place) decides the polarity, and a forward built from it matches no rule")
+			}
+		}
+	}
+	r.count("returns of the polarity query", n)
+}
